@@ -10,8 +10,8 @@ func c09(r *Report) propMeta {
 	r.Rule("C09.R1", "E3 eligibility and size checks precede sampling")
 	r.Gate("validators-bonded-and-active", cl, CallEff("builtin.append"), []Cond{{Op: "BOOL", A: []string{"field:ValidatorStatus.IsActive", "call:Keeper.GetValidatorStatus"}, Want: true, Desc: "oracle-active"}, nilErrOf("types.ValAddressFromBech32")}, GateOpts{MinSites: 2})
 	r.ArgHas("validators-from-bonded-iterator", grv, "StakingKeeper.IterateBondedValidatorsByPower", 1, 1, "^closure:"+cl)
-	r.FreeVarWriters("operators-filled-only-by-iterator", grv, "valOperators", []string{cl})
-	r.FreeVarWriters("powers-filled-only-by-iterator", grv, "valPowers", []string{cl})
+	r.FreeVarWriters("operators-filled-only-by-iterator", grv, "[]github.com/cosmos/cosmos-sdk/types.ValAddress", []string{cl})
+	r.FreeVarWriters("powers-filled-only-by-iterator", grv, "[]uint64", []string{cl})
 	r.Gate("enough-validators", grv, CallEff("bandrng.ChooseSomeMaxWeight"), []Cond{
 		{Op: "LSS", A: []string{"len"}, B: []string{"^param:size"}, Want: false, Desc: "not (len(eligible) < size)"},
 		nilErrOf("StakingKeeper.IterateBondedValidatorsByPower"), nilErrOf("bandrng.NewRng")}, GateOpts{FailIsError: true})
